@@ -172,6 +172,18 @@ def field_type(T, name):
     raise KeyError(name)
 
 
+def real_integral(v):
+    """(m, b, e) with an integral mantissa: a fractional one (a python float, n / 2**k exactly) is m * b**e all the same --
+    n * 2**-k = (n * 5**k) * 10**-k"""
+    m, b, e = v
+    if isinstance(m, float):
+        from fractions import Fraction
+        f = Fraction(m)
+        k = f.denominator.bit_length() - 1
+        m, e = (f.numerator, e - k) if b == 2 else (f.numerator * 5 ** k, e - k)
+    return m, b, e
+
+
 def norm(T, v):
     """abstract value: DEFAULT members equal to their default are dropped (recursively)."""
     k = T['k']
@@ -191,7 +203,7 @@ def norm(T, v):
     if k == 'CHOICE':
         return (v[0], norm(field_type(T, v[0]), v[1]))
     if k == 'REAL' and isinstance(v, tuple):
-        m, b, e = v
+        m, b, e = real_integral(v)
         if m == 0:
             return (0, 2, 0)
         if b == 2:
@@ -236,7 +248,7 @@ def content_of(T, v, rules, quirks=(), ine=False):
             return b'\x40', False
         if v == '-inf':
             return b'\x41', False
-        m, b, e = v
+        m, b, e = real_integral(v)
         if m == 0:
             return b'', False
         if b == 2:
